@@ -1352,6 +1352,8 @@ def _symbolic_keys_to_tuples(
         The tuple keys of ``new_hamiltonian`` are ordered according to this list.
 
     """
+    # The key of the unperturbed Hamiltonian may be the Python integer 1.
+    hamiltonian = {sympy.sympify(key): value for key, value in hamiltonian.items()}
     # Collect all symbols from the keys
     symbols = list(set.union(*[key.free_symbols for key in hamiltonian.keys()]))
     symbols = tuple(sorted(symbols, key=lambda x: x.name))
